@@ -155,20 +155,27 @@ structure HtOpened where
   metaBytes : ByteArray
   buckets : Nat
 
-/-- `ht_file::open`: length check, then the meta pages (`io::read_page` each; inside the checked length these reads
-cannot come back short), `MetaMap::from_bytes` (its `assert_eq!(len % 4096, 0)` holds by construction) -/
-def htOpen (dbg : Bool) (numPages : Nat) (ht : ByteArray) : Outcome String HtOpened :=
+/-- the arithmetic and the checks of `ht_file::open` on a file of `fileLen` bytes: the data page offset -/
+def htOpenCore (dbg : Bool) (numPages fileLen : Nat) : Outcome String Nat :=
   match expectedFileLen dbg numPages with
   | .panic s => .panic s
   | .err e => .err e
   | .ok len =>
-    if ht.size ≠ len then .err "Store corrupted; unexpected file length"
+    if fileLen ≠ len then .err "Store corrupted; unexpected file length"
     else match numMetaBytePagesU32 dbg numPages with
       | .panic s => .panic s
       | .err e => .err e
       | .ok mp =>
-        if ht.size < mp * PAGE then .err "ht: failed to fill whole buffer"
-        else .ok { dataPageOffset := mp, metaBytes := ht.extract 0 (mp * PAGE), buckets := numPages }
+        if fileLen < mp * PAGE then .err "ht: failed to fill whole buffer"
+        else .ok mp
+
+/-- `ht_file::open`: length check, then the meta pages (`io::read_page` each; inside the checked length these reads
+cannot come back short), `MetaMap::from_bytes` (its `assert_eq!(len % 4096, 0)` holds by construction) -/
+def htOpen (dbg : Bool) (numPages : Nat) (ht : ByteArray) : Outcome String HtOpened :=
+  match htOpenCore dbg numPages ht.size with
+  | .panic s => .panic s
+  | .err e => .err e
+  | .ok mp => .ok { dataPageOffset := mp, metaBytes := ht.extract 0 (mp * PAGE), buckets := numPages }
 
 /-- the length `ht_file::create` gives the file: `(num_pages + num_meta_byte_pages(num_pages)) as usize * PAGE_SIZE` -/
 def htCreateLen (dbg : Bool) (numPages : Nat) : Outcome String Nat :=
